@@ -194,7 +194,7 @@ def w(f): def rec: (.[]? |= rec) | f; rec;
 
 /// (b) documented equations, one obligation each
 fn equations(src: &mut Src) -> CaseResult {
-    let which = src.below(47);
+    let which = src.below(48);
     let sample = src.sample;
     let long = src.chance(40);
     let arr = MVal::Arr(gen_tied_array(src, long));
@@ -295,6 +295,7 @@ fn equations(src: &mut Src) -> CaseResult {
         43 => ("splits-by-literal-regex-is-division", format!("if {0} == \"\" or . == \"\" then \"skip\" else [[splits({1})], split({1}; \"\")] end", jstr(&t), jstr(&regex_quote(&t))), format!("if {0} == \"\" or . == \"\" then \"skip\" else [. / {0}, . / {0}] end", jstr(&t)), MVal::TStr(s.clone().into_bytes()), true),
         44 => ("del-one-array-element", format!("length as $n | if $n == 0 then \"skip\" else ({d} % $n) as $i | [del(.[$i]), del(.[$i - $n]), del(.[$i:$i + 1]), del(.[$n:]), del(.[$i:$i])] end"), format!("length as $n | if $n == 0 then \"skip\" else ({d} % $n) as $i | (.[:$i] + .[$i + 1:]) as $r | [$r, $r, $r, ., .] end"), arr.clone(), true),
         45 => ("del-one-object-key", ". as $o | [keys_unsorted[] as $k | del(.[$k]) | (. == ($o | with_entries(select(.key != $k)))) and (has($k) | not) and length == ($o | length) - 1 and all(keys_unsorted[] as $j | .[$j] == $o[$j]; .)] | all".into(), "true".into(), obj.clone(), true),
+        46 => ("pick-keeps-every-picked-leaf", ". as $o | [paths(scalars) | select(all(.[]; isstring))] as $ps | pick(getpath($ps[])) as $r | [all($ps[]; . as $p | ($r | getpath($p)) == ($o | getpath($p))), ($r | [paths(scalars)] | length) == ($ps | length)]".into(), "[true, true]".into(), if src.bool() { obj.clone() } else { any.clone() }, true),
         _ => ("utf8bytelength-and-explode-length", "[utf8bytelength, length]".into(), "[(tobytes | length), (explode | length)]".into(), MVal::TStr(s.clone().into_bytes()), true),
     };
     let lhs = format!("{DEFS} {lhs}");
@@ -387,7 +388,7 @@ pub fn run(mut rep: Report) -> ! {
     rep.set_rule(
         "arrays of 0..8 (and 21..120) elements drawn with repetition from a small pool of generated values and their equal-but-distinguishable twins (ties, duplicates, mixed types, small objects in both key orders), objects with arbitrary keys, ragged arrays of arrays, strings over an alphabet with multi-byte characters with needles cut from them, 16 key filters with 0/1/2 outputs and errors: \
          (a) sort_by/group_by/unique_by/min_by/max_by and their [f] forms against a model: keys from map([f]), ordered stably with the harness' transcription of the manual's order (stability, maximal runs, first of each run, an extremal element, null on []); a failing key filter must fail the built-in; \
-         (b) 47 documented equations/invariants evaluated by jaq on both sides (keys, entries round trip, indices completeness in arrays and strings, index/rindex, flatten and flatten($d) vs the manual's definitions, transpose shape law, combinations, bsearch insertion point, contains vs its four clauses, inside/in duality, walk, map, map_values, join, split, ltrimstr/rtrimstr vs startswith/endswith, tonumber/toboolean, abs, type and the is*/selection filters as a partition); \
+         (b) 48 documented equations/invariants evaluated by jaq on both sides (keys, entries round trip, indices completeness in arrays and strings, index/rindex, flatten and flatten($d) vs the manual's definitions, transpose shape law, combinations, bsearch insertion point, contains vs its four clauses, inside/in duality, walk, map, map_values, join, split, ltrimstr/rtrimstr vs startswith/endswith, tonumber/toboolean, abs, type and the is*/selection filters as a partition); \
          (c) floor/round/ceil against IEEE arithmetic (integers of any size unchanged); \
          non-trivial = array with >= 2 elements and a tie (a), an obligation inside its documented domain with an output (b), a non-small-integer number (c); distinct by (obligation, input, needle)",
     );
